@@ -565,11 +565,18 @@ pub fn gen_ok_stmt(env: &mut Env, rng: &mut Rng, allow_use: bool) -> GStmt {
             23..=31 => {
                 let (n, g) = def_name(env, rng, "f");
                 let tag = if g { "fn_ghost_name" } else { "fn" };
-                match rng.below(4) {
-                    0 => GStmt { text: format!("fn {}(x: Length) -> Length = x + {}", n, gen_expr(env, rng, Dm::Length, 1)), eff: Effect::Fn(n, FnKind::LenLen), tag },
+                // no `ans` / `_` inside function bodies: the body is type-checked with the type `ans` has now but
+                // reads the last result at call time (`1`, `fn f(x) = x * ans`, `"s"`, `f(2)` panics in vm.rs
+                // pop_quantity) — a defect outside C06/C07 that would only end sessions early
+                let saved_ans = env.ans.take();
+                let env_no_ans: &Env = &*env;
+                let st = match rng.below(4) {
+                    0 => GStmt { text: format!("fn {}(x: Length) -> Length = x + {}", n, gen_expr(env_no_ans, rng, Dm::Length, 1)), eff: Effect::Fn(n, FnKind::LenLen), tag },
                     1 => GStmt { text: format!("fn {}(x) = 1 / x", n), eff: Effect::Fn(n, FnKind::Recip), tag },
-                    _ => GStmt { text: format!("fn {}(x) = x * {}", n, gen_expr(env, rng, Dm::Scalar, 1)), eff: Effect::Fn(n, FnKind::Generic), tag },
-                }
+                    _ => GStmt { text: format!("fn {}(x) = x * {}", n, gen_expr(env_no_ans, rng, Dm::Scalar, 1)), eff: Effect::Fn(n, FnKind::Generic), tag },
+                };
+                env.ans = saved_ans;
+                st
             }
             32..=34 if env.fns.iter().any(|(_, k)| *k == FnKind::Generic) => {
                 let gs: Vec<String> = env.fns.iter().filter(|(_, k)| *k == FnKind::Generic).map(|(n, _)| n.clone()).collect();
